@@ -47,7 +47,7 @@ def zero_crossing_rules(chk):
         chk.ob("R-ZC-STRICT", cc + "{crossing}", "sign change <=> product of neighbours < 0 (strict)", len(prod) == 1 and prod[0][0] == "Lt",
                derived="%s" % [(op, e.stmt) for op, e in prod], loc=prod[0][1].loc if prod else fi.loc())
         zeros = [e for n, e in z if n is not None and n[0] == "Eq" and n[1].kind == K_ARRAY and alg_degree(n[1].a(R)) == Exp(1) and
-                 n[1].origin and "a@" in "".join(n[1].origin)]
+                 "p:values" in n[1].tags and n[1].shape == (LinExpr("n"),)]       # the series itself (a copy or not), full length
         chk.ob("R-ZC-STRICT", cc + "{zeros}", "exact zeros are `values == 0`", len(zeros) == 1, derived="%d `== 0` test(s) on the values" % len(zeros),
                loc=zeros[0].loc if zeros else fi.loc())
         adj = [e for e in cm if e.right.has_const() and e.right.const == 1 and "where-index" in e.left.tags]
